@@ -14,6 +14,7 @@ func init() {
 	vrt.Register("C01_trusted_routes", TrustedRoutes)
 	vrt.Register("C01_mixed", Mixed)
 	vrt.Register("C01_html_typed_helpers", HTMLTypedHelpers)
+	vrt.Register("C01_named_string_types", NamedStringTypes)
 }
 
 type holder struct {
@@ -348,4 +349,62 @@ func containsByte(s string, c byte) bool {
 		}
 	}
 	return false
+}
+
+// Role is a named string type without String()/HTML() methods: it is string
+// data, not trusted HTML.
+type Role string
+
+type roleHolder struct {
+	R  Role
+	Rs []Role
+}
+
+// safe: the region contains no raw special and every & starts an entity
+func safe(r string) bool {
+	for i := 0; i < len(r); i++ {
+		c := r[i]
+		if c == '<' || c == '>' || c == '\'' || c == '"' {
+			return false
+		}
+		if c == '&' {
+			ok := false
+			for _, e := range []string{"&lt;", "&gt;", "&amp;", "&#39;", "&#34;", "&quot;", "&apos;"} {
+				if i+len(e) <= len(r) {
+					if r[i:i+len(e)] == e {
+						ok = true
+					}
+				}
+			}
+			if !ok {
+				return false
+			}
+		}
+	}
+	return true
+}
+
+// values of named string types are string data: whatever is emitted for them is escaped
+func NamedStringTypes() {
+	p := payload()
+	ctx := baseCtx(p)
+	ctx.Set("role", Role(p))
+	ctx.Set("rh", roleHolder{R: Role(p), Rs: []Role{Role(p)}})
+	ctx.Set("rm", map[string]Role{"k": Role(p)})
+	ctx.Set("ri", []interface{}{Role(p)})
+	srcs := []string{"role", "rh.R", "rh.Rs[0]", "rm[\"k\"]", "ri[0]", "ri", "[role][0]", "idf(role)", "{k: role}[\"k\"]"}
+	e := srcs[vrt.Choice(len(srcs))]
+	in, pre, post := route(e)
+	in = defs + in
+	vrt.Note("input", in)
+	got, err := plush.Render(in, ctx)
+	vrt.Note("got", got)
+	if err != nil {
+		vrt.Cover("error")
+		return
+	}
+	vrt.Assert(len(got) >= len(pre)+len(post), "the output contains the literal frame")
+	r := got[len(pre) : len(got)-len(post)]
+	vrt.Assert(safe(r), "a value of a named string type is never emitted with raw < > & ' \"")
+	vrt.Cover("done")
 }
